@@ -78,3 +78,13 @@ def all_repo_files(sub="redun"):
             if f.endswith(".py"):
                 out.append(os.path.relpath(os.path.join(d, f), REPO))
     return sorted(out)
+
+
+def module_constants(rel):
+    """simple module-level constant assignments NAME = <str|bytes|int literal> of a repo file, read on every run"""
+    tree, _ = parse_file(rel)
+    out = {}
+    for n in tree.body:
+        if isinstance(n, ast.Assign) and len(n.targets) == 1 and isinstance(n.targets[0], ast.Name) and isinstance(n.value, ast.Constant):
+            out[n.targets[0].id] = n.value.value
+    return out
